@@ -22,6 +22,12 @@ def instances(tier):
         jobs.append({"spec": spec, "agents": ["a0", "a1"], "mapping": mapping, "algo": "adsa", "params": {"stop_cycle": 3, "period": 0.1}, "timeout": 10})
     # a run that does NOT end by itself: the orchestrator's timeout timer fires and stops the agents
     jobs.append({"spec": spec, "agents": ["a0", "a1"], "mapping": {"a0": ["v0"], "a1": ["v1"]}, "algo": "dsa", "params": {}, "timeout": 0.3})
+    # resilient runs: every agent hosts a replication computation whose discovery callback (subscribe_all_agents) fires for
+    # every agent that registers or leaves, including during the stop phase
+    spec3 = {"vars": {f"v{i}": [0, 1] for i in range(3)}, "cons": [{"name": "c0", "scope": ["v0", "v1"], "table": B[2]}, {"name": "c1", "scope": ["v1", "v2"], "table": B[4]}], "mode": "min"}
+    jobs.append({"spec": spec3, "agents": ["a0", "a1", "a2"], "mapping": {"a0": ["v0"], "a1": ["v1"], "a2": ["v2"]}, "algo": "dsa", "params": {"stop_cycle": 3}, "timeout": 10, "replication": 2})
+    if not q:
+        jobs.append({"spec": spec3, "agents": ["a0", "a1", "a2"], "mapping": {"a0": ["v0"], "a1": ["v1"], "a2": ["v2"]}, "algo": "dsa", "params": {}, "timeout": 0.5, "replication": 1})
     return jobs
 
 
